@@ -282,14 +282,16 @@ type Exec struct {
 	fnsEntered   map[*ssa.Function]bool
 	expectPanic  string
 
-	initMode bool
-	snapshot *Snapshot
+	initMode    bool
+	snapshot    *Snapshot
+	snapshotInt *Snapshot
 
 	threads *Sched
 	cur     *Frame
 
 	pendingDeferOf *Frame
 	specStart      int
+	divCache       map[[2]*Term][2]*Term
 }
 
 type Snapshot struct {
@@ -338,6 +340,7 @@ func (ex *Exec) resetPath(prefix []int) {
 		ex.fnsEntered = map[*ssa.Function]bool{}
 	}
 	ex.expectPanic = ""
+	ex.divCache = nil
 	ex.threads = nil
 	ex.cur = nil
 }
